@@ -1005,7 +1005,7 @@ MANIFEST = dict(
         "from the expression structure. The direct estimator's score-function term must weight log p(b) by the (corrected) integrand itself, detached - not by a "
         "centred, scaled or clamped transformation of it - and GumbelOneHotCategorical.tlog_prob is interpreted over exact values for logits with a masked "
         "(-inf) class, unbatched and batched, every one-hot sample: the logit of the selected class, finite unless that class is masked. "
-        "Exact unbiasedness and the relaxed densities are numerical and not decided. `expand` of the relaxed distributions copies each parametrisation from itself (sibling rule over the `'p' in self.__dict__` arms), and the Metropolis-Hastings carry-over of the importance ratio reads the per-chain decision, not the version widened for the samples' event dimensions (def-use versions)."),
+        "Exact unbiasedness and the relaxed densities are numerical and not decided. `expand` of the relaxed distributions copies each parametrisation from itself (sibling rule over the `'p' in self.__dict__` arms), and the Metropolis-Hastings carry-over of the importance ratio reads the per-chain decision, not the version widened for the samples' event dimensions (def-use versions). With every proposal accepted the Metropolis-Hastings estimate is the plain average after the burn-in (the estimator's __call__ interpreted with scripted draws for five (samples, burn-in) pairs)."),
     level_note="Trusted: python ast; autograd semantics of detach/no_grad; the estimators' docstring formulas. F15 "
                "(MH constructor reads self.proposal before super().__init__) was found by G22 and repaired.",
     technique="static analysis: additive-term/detach structure analysis on def-use chains, path-based definite assignment; tlog_prob of the one-hot categorical by interpretation over exact values with a masked class; sibling-arm agreement in expand; def-use version rule on the chain's carry-over",
